@@ -19,6 +19,11 @@ Recs == ndJsonDeserialize(IOEnv.TRACE)
 
 IsSuffixSeq(s, t) == Len(s) <= Len(t) /\ SubSeq(t, Len(t) - Len(s) + 1, Len(t)) = s
 
+\* A real filesystem has no recorded kind of a link: the kind the driver saw (the kernel's, which also resolves THROUGH links)
+\* is replaced by the kind the target has in the tree, looked at the way the reference does
+AbsBe(be, rep) == LET s == AbsOf(rep) IN
+   IF be # "stdfs" THEN s
+   ELSE [s EXCEPT !.fs = [p \in DOMAIN s.fs |-> IF s.fs[p].k = "link" THEN [s.fs[p] EXCEPT !.tk = TK(s.fs, s.fs[p].t)] ELSE s.fs[p]]]
 ThroughLink(fs, p, ok) == ok /\ \E i \in 1..(Len(p) - 1) : IsLink(fs, SubSeq(p, 1, i))
 
 \* ---- arguments of one invocation, resolved by the specification ----
@@ -87,7 +92,7 @@ JudgeStep(be, own, pre, s) ==
       LET viol == IF s.same = "t" THEN "-" ELSE RepViolation(s.post) IN
       IF viol # "-" THEN << Bad(be, mac, pre, a, "ILLFORMED:" \o viol) >>
       ELSE
-      LET post == IF s.same = "t" THEN pre ELSE AbsOf(s.post)
+      LET post == IF s.same = "t" THEN pre ELSE AbsBe(be, s.post)
           v == Post(mac, pre, post, own, a)
           perf == Performed(mac, pre, own, a, post)
           verdict == (IF perf THEN <<>> ELSE << Bad(be, mac, pre, a, IF post = pre THEN "operation-not-performed:state-unchanged" ELSE "operation-not-performed:other-state") >>)
@@ -103,7 +108,7 @@ TallySteps(tally, be, own, pre, steps, i, g) == IF i > Len(steps) THEN tally
    ELSE TallySteps(UpdAll(tally, JudgeStep(be, own, pre, steps[i]), g * 1000 + i), be, own, pre, steps, i + 1, g)
 TallyGroup(tally, r, g) == LET v == RepViolation(r.pre) IN
    IF v # "-" THEN Upd(tally, <<"skip", "pre-state-illformed", v>>, g * 1000)
-   ELSE TallySteps(tally, r.be, r.own, AbsOf(r.pre), r.steps, 1, g)
+   ELSE TallySteps(tally, r.be, r.own, AbsBe(r.be, r.pre), r.steps, 1, g)
 
 VARIABLES l
 Init == l = 1 /\ TLCSet(1, <<>>) /\ TLCSet(2, 0)
